@@ -33,13 +33,13 @@ type world struct {
 	byAddr  map[string]*actor
 	dirs    []string
 	// chain bookkeeping
-	chain    []*chainRec // committed blocks in order (index 0 = height 1)
-	included map[string]uint64
+	chain        []*chainRec // committed blocks in order (index 0 = height 1)
+	included     map[string]uint64
 	includedList [][]byte
 	mustFail     map[string]string // tx bytes -> "Cxx|kind": adversarial variants that must never execute
 	contentSeen  map[string]uint64
 	contentBytes map[string]string
-	txSeq    uint64
+	txSeq        uint64
 	// reference ledgers
 	ledger *ledger
 	past   map[uint64]*pastCommittee
@@ -115,6 +115,11 @@ func (w *world) buildGenesis(nVals int) {
 	p.Validator.MaxCommitteeSize = []uint64{100, 2, uint64(nVals), uint64(nVals + 1)}[t.Pick(3, 1, 1, 1)]
 	p.Validator.MaximumDelegatesPerCommittee = []uint64{0, 1, 5}[t.Pick(2, 1, 1)]
 	p.Validator.MinimumStakeForValidators = []uint64{0, 1000}[t.Pick(3, 1)]
+	if t.Chance(1, 4) {
+		// small blocks: the mempool regularly holds more than fits (the oversize path of block building)
+		p.Consensus.BlockSize = lib.MaxBlockHeaderSize + uint64(250+t.Intn(1200))
+		c.Probe("genesis_small_block_size")
+	}
 	if err := p.Check(); err != nil {
 		c.Harnessf("generated params invalid: %v", err)
 	}
